@@ -1,6 +1,8 @@
 """C04 — balanced networks give element- and charge-conserving generated dynamics."""
 from __future__ import annotations
 
+from hypothesis import strategies as st
+
 from ..gen import model as M
 from ..runner import CaseResult
 from .. import netcase as N
@@ -32,8 +34,19 @@ def budget(tier):
     return dict(examples=600, shards=16, shrink_calls=2000)
 
 
+@st.composite
+def _case(draw, nmax):
+    case = draw(M.balanced_network(max_reactions=nmax))
+    # a quarter of the networks is written the UCLCHEM / old-UMIST way: upper-case symbols (HE, CL, SI, E-) with a renaming table,
+    # the electron symbol listed among the elements or among the pseudo-elements
+    if draw(st.integers(0, 3)) == 0 and not any(sp.get("x") or sp.get("sg") for sp in case["pool"]):
+        case["upper"] = draw(st.sampled_from(["elements", "elements", "pseudo"]))
+        case["route"] = "api"
+    return case
+
+
 def strategy(tier):
-    return M.balanced_network(max_reactions=10 if tier == "quick" else 30)
+    return _case(10 if tier == "quick" else 30)
 
 
 def fixed_cases(tier):
@@ -51,7 +64,7 @@ def fixed_cases(tier):
 def check_case(case, tier):
     N.reset_naunet_state()
     failures = []
-    labels = N.network_features(case) + [f"route-{case.get('route', 'api')}"]
+    labels = N.network_features(case) + [f"route-{case.get('route', 'api')}"] + ([f"upper-case-lists/electron-in-{case['upper']}"] if case.get("upper") else [])
     elements = sorted({e for sp in case["pool"] for e in M.composition(sp)})
     # sanity of the generator: every reaction is balanced (otherwise the case is outside the domain)
     for rc in case["reactions"]:
